@@ -1,6 +1,7 @@
 //! Seeded random histories on the real crate.
 use crate::h::*;
 use crate::queries::{Mac, Step, NQ};
+use crate::with_arch;
 use crate::world::*;
 use gecs::prelude::*;
 use std::collections::HashMap;
@@ -223,6 +224,23 @@ fn run_body(h: &mut H, r: &mut Rng, prof: &Profile) {
         } else if prof.multi_world && existing.len() > 1 {
             h.begin("drop");
             h.op_drop(wi, None);
+        }
+    }
+    // refill every archetype of every world to exactly its capacity: every position a destroy freed
+    // must be reusable, without growing, and must hand out a handle never issued before
+    h.light = true;
+    for wi in 0..NW {
+        if h.worlds[wi].is_none() { continue; }
+        for ai in 0..NARCH {
+            let room = {
+                let w = h.worlds[wi].as_ref().unwrap();
+                with_arch!(ai, A => { let a = A::arch(w); a.capacity() - a.len() })
+            };
+            for k in 0..room.min(160) {
+                let p: Vec<i64> = (0..32).map(|i| (payload + k as i64) * 100 + i).collect();
+                h.begin("create");
+                h.op_create(wi, ai, &p, (k % 3) as u8, true);
+            }
         }
     }
     h.light = false;
